@@ -144,9 +144,9 @@ mut("c08-end-mismatch-not-reexamined", "C08", "C08.R1", (TK, "get_state(c, delim
 mut("c08-end-mismatch-checks-start-delimiter", "C08", "C08.R1", (TK, "get_state(c, delimiter_start, delimiter_end, State::InDelimiter)", "match check_delimiter_start(c, delimiter_start) {\n                            State::DelimiterStart(_) => (None, State::InDelimiter),\n                            _ => (None, State::InDelimiter),\n                        }"))
 
 # ---------------------------------------------------------------- C09
-mut("c09-newline-not-separator-after-value", "C09", "C09.R1", (EP, "State::NameBegin => match current_char {\n                                ' ' | '\\n' => {}", "State::NameBegin => match current_char {\n                                ' ' => {}"))
-mut("c09-newline-not-separator-before-eq", "C09", "C09.R1", (EP, "State::NameEnd => match current_char {\n                                ' ' | '\\n' => {}", "State::NameEnd => match current_char {\n                                ' ' => {}"))
-mut("c09-newline-not-separator-after-eq", "C09", "C09.R1", (EP, "State::ValueBegin => match current_char {\n                                ' ' | '\\n' => {}", "State::ValueBegin => match current_char {\n                                ' ' => {}"))
+mut("c09-newline-not-separator-after-value", "C09", "C09.R1", (EP, "State::NameBegin => match current_char {\n                                ' ' | '\\n' | '\\r' => {}", "State::NameBegin => match current_char {\n                                ' ' | '\\r' => {}"))
+mut("c09-newline-not-separator-before-eq", "C09", "C09.R1", (EP, "State::NameEnd => match current_char {\n                                ' ' | '\\n' | '\\r' => {}", "State::NameEnd => match current_char {\n                                ' ' | '\\r' => {}"))
+mut("c09-newline-not-separator-after-eq", "C09", "C09.R1", (EP, "State::ValueBegin => match current_char {\n                                ' ' | '\\n' | '\\r' => {}", "State::ValueBegin => match current_char {\n                                ' ' | '\\r' => {}"))
 mut("c09-quoted-value-ends-at-newline", "C09", "C09.R1", (EP, "if current_char == '\"' {\n                                    pairs.last_mut().unwrap().1 = Some(&target[start..pos]);", "if current_char == '\"' || current_char == '\\n' {\n                                    pairs.last_mut().unwrap().1 = Some(&target[start..pos]);"))
 mut("c09-eq-ignored-in-name", "C09", "C09.R1", (EP, "                                '=' => {\n                                    pairs.push((&target[start..pos], None));\n                                    state = State::ValueBegin\n                                }", "                                '=' => {}"))
 mut("c09-value-includes-quote", "C09", "C09.R1", (EP, "state = State::ValueWithDoubleQuote(pos + 1);", "state = State::ValueWithDoubleQuote(pos);"))
@@ -154,7 +154,7 @@ mut("c09-trim-matches-back", "C09", "C09.R3", (EP, "let target = target\n       
 mut("c09-attrs-reversed", "C09", "C09.R1", (EP, "pairs[1..]\n                    .iter()\n                    .map(", "pairs[1..]\n                    .iter()\n                    .rev()\n                    .map("))
 mut("c09-single-quote-closes-double", "C09", "C09.R1", (EP, "State::ValueWithSingleQuote(start) => {\n                                if current_char == '\\'' {", "State::ValueWithSingleQuote(start) => {\n                                if current_char == '\\'' || current_char == '\"' {"))
 mut("c01-empty-name-accepted-again", "C01", "C01", (EP, "if last_state == State::ParseError || pairs.is_empty() {", "if last_state == State::ParseError && !pairs.is_empty() {"))
-mut("c09-tab-is-separator-in-name-only", "C09", "C09.R1", (EP, "State::Name(start) => match current_char {\n                                ' ' | '\\n' => {", "State::Name(start) => match current_char {\n                                ' ' | '\\n' | '*' => {"))
+mut("c09-tab-is-separator-in-name-only", "C09", "C09.R1", (EP, "State::Name(start) => match current_char {\n                                ' ' | '\\n' | '\\r' => {", "State::Name(start) => match current_char {\n                                ' ' | '\\n' | '\\r' | '*' => {"))
 
 # ---------------------------------------------------------------- C10
 mut("c10-hoisted-children-dropped", "C10", "C10.R1", (PA, "                            let mut parts = vec![ContentPart::Text(Text { token: t })];\n                            parts.extend(children);\n\n                            State::Hoisted((parts, end_token, end_el))", "                            let parts = vec![ContentPart::Text(Text { token: t })];\n\n                            State::Hoisted((parts, end_token, end_el))"))
@@ -269,6 +269,23 @@ mut("c01-final-flush-plus-one", "C01", "C01.OB",
     (TK, "            _ => Some(Token {\n                value: &source[byte_start_pos..],", "            _ => Some(Token {\n                value: &source[byte_start_pos..byte_pos + 1],"))
 mut("c01-unsafe-unchecked", "C01", "C01.unsafe", (LS, "    let bytes = content.as_bytes();\n    let line_start", "    let bytes = content.as_bytes();\n    let _probe = unsafe { content.get_unchecked(0..0) };\n    let line_start"))
 mut("c01-removed-len-before-push", "C01", "C01.OB", (RM, "                positions.push((marker.start - removed_len, *pair_pos));\n                removed_len += marker.end - marker.start;", "                removed_len += marker.end - marker.start;\n                positions.push((marker.start - removed_len, *pair_pos));"))
+mut("c14-removed-len-forgotten", "C14", "C14.R8", (RM, "                removed_len += marker.end - marker.start;\n", ""))
+mut("c14-removed-len-counts-end", "C14", "C14.R8", (RM, "                removed_len += marker.end - marker.start;\n", "                removed_len += marker.end;\n"))
+mut("c13-seam-before-update", "C13", "C13.D:C14.R8", (RM, "                positions.push((marker.start - removed_len, *pair_pos));\n                removed_len += marker.end - marker.start;", "                removed_len += marker.end - marker.start;\n                positions.push((marker.start - removed_len, *pair_pos));"))
+mut("c07-empty-token-guard-sum", "C07", "C07.R6", (TK, "if (byte_pos - byte_start_pos) > 0 {", "if (byte_pos + byte_start_pos) > 0 {"))
+mut("c07-empty-token-guard-ge", "C07", "C07.R6", (TK, "if (byte_pos - byte_start_pos) > 0 {", "if byte_pos >= byte_start_pos {"))
+mut("c07-trailing-token-on-empty-source", "C07", "C07.R6", (TK, "        None => None,\n    };\n\n    if let Some(token) = additional_token", "        None => Some(Token { value: &source[byte_start_pos..], kind: TokenKind::Text, start: start_pos, byte_start: byte_start_pos, end: current, byte_end: source.len() }),\n    };\n\n    if let Some(token) = additional_token"))
+mut("c17-pending-cursor-by-two", "C17", "C17.R2", (RM, "                range_cursor += 1;", "                range_cursor += 2;"))
+mut("c03-fused-marker-dropped", "C03", "C03.R8", (RM, "                    acc.push((marker.start..end_marker.end, None));\n", ""))
+mut("c03-tail-marker-dropped", "C03", "C03.R8", (RM, "                    acc.push((end_marker, Some(current)));\n", ""))
+mut("c03-plain-marker-only-without-children", "C03", "C03.R8", (RM, "                acc.push((marker, None));\n", "                if child_markers.is_empty() {\n                    acc.push((marker, None));\n                }\n"))
+# the C12 known finding repaired in a scratch copy: the rule must be silent there (and must report a wrong repair)
+benign("c12-start-of-file-repaired", (BI, "            None => 0,\n", "            None if bytes[..start_byte_pos].iter().all(|b| *b == b' ' || *b == b'\\t') => start_byte_pos,\n            None => 0,\n"))
+mut("c12-start-of-file-wrong-repair", "C12", "C12.R2b", (BI, "            None => 0,\n", "            None => start_byte_pos,\n"))
+mut("c17-squash-strict-end-regression", "C17", "C17.R4", (RM, "range.contains(&pending_range.start) && pending_range.end <= range.end;", "range.contains(&pending_range.start) && range.contains(&pending_range.end);"))
+mut("c10-closer-strips-every-slash-regression", "C10", "C10.R6", (PA, 'let pair_name = el.name.strip_prefix("/").unwrap_or(el.name);', 'let pair_name = el.name.trim_start_matches("/");'), (PA, 'if el.name == end_el.name.strip_prefix("/").unwrap_or(end_el.name) {', 'if el.name == end_el.name.trim_start_matches("/") {'))
+mut("c16-find-line-break-on-next-line-regression", "C16", "C16.R7", (LM, "position(|v| *v >= needle)", "position(|v| *v > needle)"))
+mut("c09-cr-not-separator-regression", "C09", "C09.R1", (EP, "State::NameEnd => match current_char {\n                                ' ' | '\\n' | '\\r' => {}", "State::NameEnd => match current_char {\n                                ' ' | '\\n' => {}"))
 
 # ---------------------------------------------------------------- C11
 mut("c11-two-lines-regression", "C11", "C11.R2", (UB, "if start >= end {", "if start > end {"))
@@ -290,7 +307,7 @@ mut("c13-formatter-asked-elsewhere", "C13", "C13.R1", (FM, "        let (start, 
 # ---------------------------------------------------------------- rules added after the sub-agent rounds
 mut("c08-empty-body-accepted", "C08", "C08.R3", (TK, "                None => (None, State::InDelimiter),", "                None => get_state(c, delimiter_start, delimiter_end, State::InDelimiter),"))
 mut("c16-lines-trimmed", "C16", "C16.R5", (LS, '.map(|l| format!("{line_column}{l}\\n"))', '.map(|l| format!("{line_column}{}\\n", l.trim_end()))'))
-mut("c17-squash-by-start-only", "C17", "C17.R4", (RM, "                let can_squash =\n                    range.contains(&pending_range.start) && range.contains(&pending_range.end);", "                let can_squash = range.contains(&pending_range.start);"))
+mut("c17-squash-by-start-only", "C17", "C17.R4", (RM, "                let can_squash =\n                    range.contains(&pending_range.start) && pending_range.end <= range.end;", "                let can_squash = range.contains(&pending_range.start);"))
 mut("c17-marker-evaluator-conditional", "C17", "C17.R5", (CH, "    builder_map.insert(\n        config.removal_marker_configuration.tag_name,", "    if !config.removal_marker_configuration.targets.is_empty() {\n    builder_map.insert(\n        config.removal_marker_configuration.tag_name.clone(),"), (CH, "                marker_removal_names: config.removal_marker_configuration.targets,\n            },\n        ),\n    );", "                marker_removal_names: config.removal_marker_configuration.targets,\n            },\n        ),\n    );\n    }"))
 mut("c14-output-normalised", "C14", "C14.R6", (CH, "    formatter::format(&removed, &removed_pos, &formatter, &structure_formatters)\n}", "    formatter::format(&removed, &removed_pos, &formatter, &structure_formatters).replace(\"\\r\\n\", \"\\n\")\n}"))
 mut("c18-name-char-class", "C18", "C18.R8", (EP, "                                _ => {\n                                    state = State::Name(pos);\n                                }\n                            },\n                            State::Name(start)", "                                c if !c.is_ascii_alphabetic() && c != '/' => state = State::ParseError,\n                                _ => {\n                                    state = State::Name(pos);\n                                }\n                            },\n                            State::Name(start)"))
@@ -319,7 +336,7 @@ benign("b-format-let-introduced", (FM, "        let range = format_block(content
 
 benign("b-tokenizer-redispatch-inlined", (TK, "get_state(c, delimiter_start, delimiter_end, State::Text)", "match check_delimiter_start(c, delimiter_start) {\n                            State::DelimiterStart(chars) => (Some(TokenKind::Text), State::DelimiterStart(chars)),\n                            _ => (None, State::Text),\n                        }"))
 
-benign("b-parser-if-chain", (EP, "State::ValueWithNoQuote => {\n                                if current_char == ' ' || current_char == '\\n' {\n                                    state = State::NameBegin\n                                }\n                            }", "State::ValueWithNoQuote => match current_char {\n                                ' ' | '\\n' => state = State::NameBegin,\n                                _ => {}\n                            },"))
+benign("b-parser-if-chain", (EP, "State::ValueWithNoQuote => {\n                                if matches!(current_char, ' ' | '\\n' | '\\r') {\n                                    state = State::NameBegin\n                                }\n                            }", "State::ValueWithNoQuote => match current_char {\n                                ' ' | '\\n' | '\\r' => state = State::NameBegin,\n                                _ => {}\n                            },"))
 
 benign("b-cli-match-instead-of-iflet", (CLI, "    if let Some(filename) = args.output {\n        let mut f = File::create(filename).expect(\"file not found\");\n        f.write_all(output.as_bytes())\n            .expect(\"something went wrong writing the file\");\n    } else {\n        print!(\"{}\", output);\n    }", "    match args.output {\n        Some(filename) => {\n            let mut f = File::create(filename).expect(\"file not found\");\n            f.write_all(output.as_bytes())\n                .expect(\"something went wrong writing the file\");\n        }\n        None => print!(\"{}\", output),\n    }"))
 benign("b-cli-format-if", (CLI, "    match list_json {\n        true => ListFormat::JSON,\n        false => ListFormat::PrettyString,\n    }", "    if list_json {\n        ListFormat::JSON\n    } else {\n        ListFormat::PrettyString\n    }"))
@@ -361,7 +378,7 @@ rmut("rf-lst-3+no-pause", "lst-3", "C02", "C02.R4", (LB, "    for cursor in byte
 rmut("rf-fmt-3+insert-off-by-one", "fmt-3", "C01", "C01.OB", (FM, ".map_or(0, |idx| idx + 1);", ".map_or(0, |idx| idx + 2);"))
 rmut("rf-fmt-4+end-unclamped", "fmt-4", "C02", "C02.R6b", (BI, "let end = std::cmp::min(start + indent_len, indent_end);", "let end = start + indent_len;"))
 rmut("rf-fmt-4+first-line-plus-two", "fmt-4", "C02", "C02.R6b", (BI, "let first_line_pos = start_byte_pos + 1;", "let first_line_pos = start_byte_pos + 2;"))
-rmut("rf-rem-4+squash-start-only", "rem-4", "C17", "C17.R4", (RM, "range.contains(&pending_range.start) && range.contains(&pending_range.end);", "range.contains(&pending_range.start);"))
+rmut("rf-rem-4+squash-start-only", "rem-4", "C17", "C17.R4", (RM, "range.contains(&pending_range.start) && pending_range.end <= range.end;", "range.contains(&pending_range.start);"))
 rmut("rf-rem-4+tail-dropped", "rem-4", "C17", "C17.R2", (RM, "        merged_ranges.extend(pending_markers.map(|pending| (pending, false)));\n", ""))
 rmut("rf-rem-4+tail-skips-one", "rem-4", "C17", "C17.R2", (RM, "merged_ranges.extend(pending_markers.map(|pending| (pending, false)));", "merged_ranges.extend(pending_markers.skip(1).map(|pending| (pending, false)));"))
 rmut("rf-rem-4+single-advance", "rem-4", "C17", "C17.R2", (RM, "while let Some(pending) =", "if let Some(pending) ="))
@@ -381,7 +398,7 @@ rmut("rf-tok-3+byte-start-plus-one", "tok-3", "C01", "C01.OB", (TK, "           
 rmut("rf-tok-3+state-not-reset", "tok-3", "C08", "C08.R", (TK, "    let mut state = State::Text;", "    let mut state = State::InDelimiter;"))
 rmut("rf-tok-1+final-end-off", "tok-1", "C07", "C07.R", (TK, "            end: current,\n            byte_end: source.len(),", "            end: current,\n            byte_end: source.len() - 1,"))
 rmut("rf-par-4+closing-by-prefix", "par-4", "C10", "C10.R", (PA, ".any(|parent_el| parent_el.name == pair_name)", ".any(|parent_el| parent_el.name.starts_with(pair_name))"))
-rmut("rf-par-4+mismatch-accepted", "par-4", "C10", "C10.R", (PA, "Some((end_token, end_el)) if el.name == end_el.name.trim_start_matches(\"/\") => {", "Some((end_token, end_el)) if el.name.len() == end_el.name.trim_start_matches(\"/\").len() => {"))
+rmut("rf-par-4+mismatch-accepted", "par-4", "C10", "C10.R", (PA, "Some((end_token, end_el)) if el.name == end_el.name.strip_prefix(\"/\").unwrap_or(end_el.name) => {", "Some((end_token, end_el)) if el.name.len() == end_el.name.strip_prefix(\"/\").unwrap_or(end_el.name).len() => {"))
 
 # round 2 of the refactorings
 rmut("rf-fmt-r2-2+found-off-by-one", "fmt-r2-2", "C02", "C02.R", (IR, "b'\\n' => return (cursor + 1, byte_pos),", "b'\\n' => return (cursor, byte_pos),"))
@@ -405,11 +422,24 @@ rmut("rf-lst-r2-1+renamed-scanner-steps-two", "lst-r2-1", "C02", "C02.R4", (LB, 
 rmut("rf-rem-r3-1+inline-skip-by-value", "rem-r3-1", "C06", "C06.R", (RM, 'el.start_element.attrs.iter().any(|v| v.name == "skip")', 'el.start_element.attrs.iter().any(|v| v.name == "skip" && v.value.is_none())'))
 rmut("rf-eva-r3-1+indent-remover-dropped", "eva-r3-1", "C13", "C13.R1", (CH, "        Box::new(formatter::indent_remover::IndentRemover {}),\n", ""))
 rmut("rf-lst-r3-1+newline-skipped", "lst-r3-1", "C02", "C02.R4", (CP, "                Some(b'\\t') => {}", "                Some(b'\\t') | Some(b'\\n') => {}"))
-rmut("rf-lst-r3-4+find-line-strict", "lst-r3-4", "C16", "C16.R7", (LM, "line_map.iter().take_while(|v| **v <= needle).count() + 1", "line_map.iter().take_while(|v| **v < needle).count() + 1"))
+rmut("rf-lst-r3-4+find-line-strict", "lst-r3-4", "C16", "C16.R7", (LM, "line_map.iter().take_while(|v| **v < needle).count() + 1", "line_map.iter().take_while(|v| **v <= needle).count() + 1"))
 rmut("rf-cli-r3-4+stops-after-first", "cli-r3-4", "C20", "C20.R2", (CLI, "        .take_while(Result::is_ok)", "        .take(1)\n        .take_while(Result::is_ok)"))
 rmut("rf-fmt-r3-1+hull-shrinks", "fmt-r3-1", "C13", "C13.R1", (FM, "            let start = start.min(range.start);", "            let start = start.max(range.start);"))
 rmut("rf-cli-r3-1+inline-reader-skips", "cli-r3-1", "C20", "C20.R2", (CLI, "reader.lines().map_while(Result::ok).collect::<Vec<_>>()", "reader.lines().skip(1).map_while(Result::ok).collect::<Vec<_>>()"))
 rmut("rf-add-cli-2+stats-on-stdout", "add-cli-2", "C20", "C20.R4", (CLI, "        eprintln!(", "        println!("))
+
+# the multi-respelling refactorings that became followable (find_map/then, scan, skip; split_first, append; starts_with, for-deletion)
+rmut("rf-rem-r3-4+scan-forgets-length", "rem-r3-4", "C14", "C14.R8", (RM, "            *removed_len += marker.end - marker.start;\n", ""))
+rmut("rf-rem-r3-4+tail-always-plus-one", "rem-r3-4", "C11", "C11.R", (UB, "let tail_start = start + usize::from(start != end);", "let tail_start = start + usize::from(start == end);"))
+rmut("rf-par-r3-4+closer-any-prefix", "par-r3-4", "C10", "C10.R", (PA, 'let pair_name = rest;', 'let pair_name = rest.trim_start_matches("x");'))
+rmut("rf-fmt-r3-4+forward-deletion", "fmt-r3-4", "C02", "C02.R2", (FM, "for range in ranges.into_iter().rev() {", "for range in ranges.into_iter() {"))
+rmut("rf-fmt-r3-4+seam-inverted", "fmt-r3-4", "C13", "C13.R3", (EL, "if !content[byte_pos..].starts_with('\\n') {", "if content[byte_pos..].starts_with('\\n') {"))
+
+# a tuple given a name (sa/destruct.py): defects in the struct spelling are still reported
+rmut("rf-rem-r2-4+struct-drops-ready-children", "rem-r2-4", "C03", "C03.R", (RM, "                        collected.removal.extend(nested.removal);\n                        collected.pending.push(RemovalRangeTree {", "                        collected.pending.push(RemovalRangeTree {"))
+rmut("rf-tok-r2-4+struct-counter-by-two", "tok-r2-4", "C07", "C07.R", (TK, "            scan.current += 1;", "            scan.current += 2;"))
+rmut("rf-tok-r2-4+struct-start-not-reset", "tok-r2-4", "C07", "C07.R", (TK, "                scan.start_pos = scan.current;\n", ""))
+rmut("rf-lst-r2-4+no-color-constant-colours", "lst-r2-4", "C16", "C16.R2", (LS, '    highlight: "",\n', '    highlight: "*",\n'))
 
 with open(os.path.join(os.path.dirname(os.path.abspath(__file__)), "mutants.json"), "w") as f:
     json.dump(C, f, indent=1)
